@@ -172,6 +172,10 @@ class Model:
             for n in self.inputs:
                 self.inputs[n] = set()
         elif k in ("purgeout", "purgeinternal"):
+            if k == "purgeout":
+                # relations that are both input and output are output relations too
+                for n in self.w.meta.get("io_rels", ()):
+                    self.inputs[n] = set()
             setattr(self, "_p_" + k, True)
             if getattr(self, "_p_purgeout", False) and getattr(self, "_p_purgeinternal", False):
                 self.dirty = False
